@@ -14,6 +14,7 @@ if [ -n "${MUT_TESTS:-}" ]; then
 fi
 SQLPARSE_VERIF_REPO="$d/repo" SIM_OUT_DIR="$d/out" timeout 3000 /venv/bin/python /verif/simcheck.py "$check" "$@" > "$d/log" 2>&1
 rc=$?
+mkdir -p /dev/shm/mutlogs; cp "$d/log" "/dev/shm/mutlogs/$(basename $patch .patch)-$check.log" 2>/dev/null
 grep -E "VIOLATION|HARNESS|KNOWN|runs \(" "$d/log" | sed "s#$d#<scratch>#g" | head -8
 grep -B4 -m1 VIOLATION "$d/log" | head -6 | cut -c1-300
 echo "mutant=$(basename $patch) check=$check exit=$rc"
